@@ -86,7 +86,7 @@ func (sim) Explain(prop string, st map[string]int64) string {
 	case "C20":
 		probes = []string{"probe.rejection-with-other-unmined", "probe.chained-unconfirmed-send", "probe.already-in-mempool", "probe.already-confirmed",
 			"probe.rejection-of-recorded-tx", "probe.resend-with-unmined", "probe.resend-chain", "fault.backend-answer.transport", "fault.backend-answer.reject-fee",
-			"fault.backend-answer.reject-generic", "fault.backend-answer.reject-conflict", "fault.backend-answer.notify-received-fails", "fault.backend-answer.notify-received-2nd-fails", "probe.resend-rejected", "probe.rejection-with-recorded-child", "probe.resend-child-of-two-outputs-of-one-parent", "probe.foreign-child-of-wallet-tx"}
+			"fault.backend-answer.reject-generic", "fault.backend-answer.reject-conflict", "fault.backend-answer.notify-received-fails", "fault.backend-answer.notify-received-2nd-fails", "probe.resend-rejected", "probe.rejection-with-recorded-child", "probe.resend-child-of-two-outputs-of-one-parent", "probe.foreign-child-of-wallet-tx", "fault.crash-before-broadcast"}
 	case "C10":
 		probes = []string{"fault.db.write", "fault.db.commit", "probe.fault-fired-in:importdry2", "probe.fault-fired-in:importacct", "probe.fault-fired-in:newaddr", "probe.fault-fired-in:newaddri", "probe.fault-fired-in:newacct", "probe.restart-observations"}
 	case "C03", "C05", "C08":
@@ -953,6 +953,10 @@ func (rs *runState) exec(task, step int, op core.Op) {
 		}
 	case "crashsync":
 		rs.crashsync(task, step, op)
+	case "sendcrash":
+		if x.running {
+			rs.sendcrash(task, step, op)
+		}
 	case "fundchild":
 		rs.fundchild(step, op)
 	case "sendself":
